@@ -97,7 +97,7 @@ def _mk(kind, skel):
         """
         if excluded(nm, locals()):
             return True
-        data = {"xs": list(range(n)), "ys": list(range(k)), "m": m, "v": "é"}
+        data = {"xs": list(range(n)), "ys": list(range(k)), "m": m, "v": "é" + chr(13) + chr(10)}
         reset()
         ctxmod.sys = _Sys()
         try:
